@@ -22,6 +22,19 @@ Theorem no_loss_while_open tr s :
 Proof. exact (open_while_handle_open_lemma tr s). Qed.
 Print Assumptions no_loss_while_open.
 
+(* never lost while some handle keeps accepting, as progress: whenever the socket is open and a
+   handle h has an accept pending, a connection the accept goroutine holds is h's after one
+   Deliver, and the head of the kernel queue is h's after GAccept and Deliver: no step of any
+   other handle is needed, so closing or ignoring the other handles cannot strand it *)
+Theorem no_loss_progress tr s h :
+  run sl0 tr = Some s -> sock s = Open -> has_handle s h = true -> h_pending (hstate s h) = true ->
+  (forall c, g s = GHolding c ->
+     exists s', step s (Deliver h) = Some s' /\ In (h, c) (delivered s') /\ g s' = GAccepting) /\
+  (forall c r, kq s = c :: r -> (forall c', g s <> GHolding c') ->
+     exists s1 s2, step s GAccept = Some s1 /\ step s1 (Deliver h) = Some s2 /\ In (h, c) (delivered s2) /\ kq s2 = r).
+Proof. exact (no_loss_progress_lemma tr s h). Qed.
+Print Assumptions no_loss_progress.
+
 (* a closed handle with no call in progress: along ANY continuation nothing is ever delivered to
    it and no accept on it blocks (it fails at once with the closed-network error) *)
 Theorem closed_handle_fails tr s s' h :
